@@ -325,7 +325,9 @@ def compiled_scanner_is_frozen(ctx, rule):
     ctx.floor(rule, "writers of compiled-scanner fields", n, 8)
 
 
-KEY_TRAITS = ("std::cmp::PartialEq", "std::cmp::Eq", "std::cmp::PartialOrd", "std::cmp::Ord", "std::hash::Hash")
+KEY_TRAITS = ("std::cmp::PartialEq", "std::cmp::Eq", "std::cmp::PartialOrd", "std::cmp::Ord", "std::hash::Hash",
+              # ... and they are copied and default-initialised field by field (`StateID::default()` is state 0 everywhere)
+              "std::clone::Clone", "std::default::Default")
 # key types whose comparison is written by hand, with the rule that decides what it compares
 KEY_IMPLS_BY_HAND = {
     "internal::comparable_ast::ComparableAst": "C02.f decides which classes it may call equal",
